@@ -12,3 +12,7 @@ import LicenseExpr.Props.C08
 #print axioms LE.C08_with_parts
 #print axioms LE.C08_contains_atoms
 #print axioms LE.C08_contains_atoms_partial
+#print axioms LE.C08_strings
+#print axioms LE.C08_strings_spelling
+#print axioms LE.C08_strings_refl
+#print axioms LE.C08_strings_symm
